@@ -6,7 +6,8 @@ import sys
 
 from . import core
 
-PROPS = {"C17": "c17"}
+PROPS = {f[:-3].upper(): f[:-3] for f in os.listdir(os.path.join(os.path.dirname(__file__), "props"))
+         if f[0] == "c" and f[1:3].isdigit() and f.endswith(".py")}
 
 
 def main():
